@@ -143,8 +143,8 @@ def run(chk):
                       {'case': d, 'got': t['ok'], 'expected': tr})
         continue
       # forward value = the original function; the user's backward rule (x3 / x2) is used when differentiating
-      row = ('(let \'(y, vg, ig) := vjp_model %s %s 1 in Z.eqb y %s && list_beq (pair_beq Nat.eqb Z.eqb) (map (fun ig0 => (fst ig0, 3 * snd ig0)) vg) %s && '
-             'list_beq Z.eqb (map (Z.mul 2) ig) %s)' % (f, D, cZ(int(a['y'])), clist([cpair(cnat(i), cZ(int(g))) for i, g in t['ok']['vg']]), clist([cZ(int(g)) for g in t['ok']['ig']])))
+      row = ('(let \'(y, vg, ig) := custom_vjp_model %s %s 3 2 1 in Z.eqb y %s && Z.eqb (custom_vjp_value %s) %s && list_beq (pair_beq Nat.eqb Z.eqb) vg %s && '
+             'list_beq Z.eqb ig %s)' % (f, D, cZ(int(a['y'])), D, cZ(int(a['y'])), clist([cpair(cnat(i), cZ(int(g))) for i, g in t['ok']['vg']]), clist([cZ(int(g)) for g in t['ok']['ig']])))
     if hi is not None:
       row = '(%s && (let \'(ys, vs) := hist %s %s in list_beq Z.eqb vs %s && ys_match ys %s))' % (
           row, cnat(len(d['seq'])), D, clist([cZ(int(z)) for z in hi['ok']['vars_after']]), clist([copt(cZ(int(y)) if y is not None else None) for y in hi['ok']['ys']]))
